@@ -8,7 +8,7 @@ open Httpcore.Pool
 theorem erase_length_le {α} [BEq α] [LawfulBEq α] (l : List α) (a : α) : (l.erase a).length ≤ l.length := by
   rw [List.length_erase]; split <;> omega
 
-theorem cleanupAdv_len (snap : List Conn) (ds : List D1) (cur closing : List Conn) :
+theorem cleanupAdv_len (snap : List Conn) (ds : List D1) (cur : List Conn) (closing : List (Conn × Reason)) :
     (cleanupAdv snap ds cur closing).1.length ≤ cur.length := by
   induction snap generalizing ds cur closing with
   | nil => simp [cleanupAdv]
@@ -60,7 +60,7 @@ theorem pass_bound_adversarial (cfg : Cfg) (s : State) (ds1 : List D1) (origins 
   apply assignAllAdv_len
   exact Nat.le_trans (cleanupAdv_len s.conns ds1 s.conns []) h
 
-theorem cleanup_len (cfg : Cfg) (snap cur closing : List Conn) :
+theorem cleanup_len (cfg : Cfg) (snap cur : List Conn) (closing : List (Conn × Reason)) :
     (cleanup cfg snap cur closing).1.length ≤ cur.length := by
   induction snap generalizing cur closing with
   | nil => simp [cleanup]
